@@ -135,3 +135,25 @@ def lower(ip, st, s):
     if not is_sym(s):
         return s.lower()
     return Sym("str", LM.str_lower(to_term(s)))
+
+
+@contract("admin/changepin.py", "do_changepin", serves=["C18"])
+class DoChangePin(Contract):
+    """"PIN change send[s] only a policy-compliant PIN ... unless any-PIN was explicitly allowed"; on Ledger only to a
+    device in bootloader mode; when the preconditions hold the operation is carried out (normal return => the device
+    acknowledged exactly one change-PIN exchange)"""
+    params = dict(options=OPTS(pin=ONEOF(NONE_, STR_), new_pin=ONEOF(NONE_, STR_)))
+    exception_serves = ()
+    max_paths = 8000
+
+    @only("C18")
+    def new_pin_only_if_compliant_and_in_bootloader(mode, arg_pin, options, g, old):
+        return (mode == 2 and (pin_policy(arg_pin) or (options.any_pin and any_pin_policy(arg_pin)))
+                and sel(g.cnt, CMD_CHANGE_PIN) == sel(old.g.cnt, CMD_CHANGE_PIN)
+                and sel(g.cnt, CMD_SEED) == sel(old.g.cnt, CMD_SEED) and sel(g.cnt, CMD_WIPE) == sel(old.g.cnt, CMD_WIPE))
+    at_calls = {"new_pin": [new_pin_only_if_compliant_and_in_bootloader]}
+
+    def carried_out(g, old): return sel(g.cnt, CMD_CHANGE_PIN) >= sel(old.g.cnt, CMD_CHANGE_PIN) + 1
+    ensures = [carried_out]
+    raises = {ADMINERR: Exc(args=[STR_]), ERR_RESULT: Exc(args=[INT_]), ERR_TIMEOUT: Exc(args=[STR_]),
+              ERR_COMM: Exc(args=[STR_]), ERR_DONGLE: Exc(args=[STR_])}
